@@ -19,6 +19,7 @@ import (
 	"sort"
 	"strings"
 	"sync"
+	"time"
 )
 
 type selftestResult struct {
@@ -243,10 +244,21 @@ func runSelftest(repo, verif, id string) *selftestResult {
 			defer os.Remove(f.Name())
 			json.NewEncoder(f).Encode(ov)
 			f.Close()
-			cmd := exec.Command(self, "-property", id, "-tier", "quick", "-repo", repo, "-verif", verif, "-overlay", f.Name(), "-no-evidence")
-			b, _ := cmd.CombinedOutput()
-			code := cmd.ProcessState.ExitCode()
-			text := string(b)
+			var code int
+			var text string
+			// a child that could not load the program (import data missing while 16 loads compete for
+			// the build cache) says nothing about the variant: try again, alone if need be
+			for attempt := 0; attempt < 3; attempt++ {
+				cmd := exec.Command(self, "-property", id, "-tier", "quick", "-repo", repo, "-verif", verif, "-overlay", f.Name(), "-no-evidence")
+				b, _ := cmd.CombinedOutput()
+				code = cmd.ProcessState.ExitCode()
+				text = string(b)
+				if code == 2 && (strings.Contains(text, "SSA packages missing") || strings.Contains(text, "could not import") || strings.Contains(text, "signal: killed")) {
+					time.Sleep(time.Duration(2+attempt*5) * time.Second)
+					continue
+				}
+				break
+			}
 			switch m.Kind {
 			case "equiv":
 				switch code {
